@@ -30,7 +30,8 @@ def gen_cases(rng, tier):
         powers = [p for p in range(7) if mask >> p & 1]
         coefs = [str(rng.randint(1, 9)) for _ in powers]
         cases.append({"expr": poly_text(powers, coefs), "var": "x", "deg": max(powers), "powers": powers})
-    kinds = ["a", "b", "a*b", "2*a", "-3", "a/2", "(a + 1)", "-a", "log2(a)", "7/3"]
+    # coefficients that are not identically zero but vanish when their parameters are given equal values are included
+    kinds = ["a", "b", "a*b", "2*a", "-3", "a/2", "(a + 1)", "-a", "log2(a)", "7/3", "(a - b)", "(a/b - 1)", "(a**2 - a*b)", "(2*a - 2*b)"]
     reps = 1 if tier == "quick" else 6
     for _ in range(reps):
         for mask in range(1, 2 ** 7):                   # the same supports, symbolic / signed / rational coefficients
@@ -42,6 +43,9 @@ def gen_cases(rng, tier):
     for d1 in range(0, 4):
         for d2 in range(0, 4):
             cases.append({"expr": f"(x**{d1} + a)*(2*x**{d2} + 1) + x", "var": "x", "deg": max(d1 + d2, 1), "powers": [0, 1, d1, d2, d1 + d2]})
+    for d in range(1, 6):                               # a leading power written as two terms with different parameters
+        cases.append({"expr": f"a*x**{d} - b*x**{d} + a*x**{d - 1}", "var": "x", "deg": d, "powers": [d - 1, d]})
+        cases.append({"expr": f"(a - b)*x**{d} + (b - a)", "var": "x", "deg": d, "powers": [0, d]})
     for c in ("5", "a", "a*b + 2", "7/2"):              # constants in x
         cases.append({"expr": c, "var": "x", "deg": 0, "powers": [0]})
     return cases
